@@ -12,12 +12,12 @@ def tails(vals, obs):
     return Fr(sum(1 for v in vals if v >= obs), n), Fr(sum(1 for v in vals if v <= obs), n)
 
 
-def impl_tail(call, alt, reps=1):
+def impl_tail(call, alt, reps=1, cls=None):
     """exact expectation of the returned p-value over the whole choice tree (plus1=False):
     for reps=1 this is P(hit); also returns P(p == 1) (all repetitions hit) and the leaf count and the
     multiset of requested arities"""
     tot = Fr(0); allhit = Fr(0); wsum = Fr(0); leaves = 0; arities = set()
-    for w, res, path in enumerate_tree(lambda g: call(g, alt, reps)):
+    for w, res, path in enumerate_tree(lambda g: call(g, alt, reps), cls=cls):
         if res[0] != "ok":
             raise RuntimeError("call failed inside enumeration: " + str(res[1:]))
         pv = Fr(float(res[1])).limit_denominator(1000)
